@@ -115,13 +115,9 @@ pub fn worker(prop: &str, seed: u64, w: u64, nw: u64, count: u64, out_path: &str
         // per-index wall-clock watchdog (an endless CPU-only loop makes no simulated call); the one
         // world that moves more than 4 GiB of bytes gets more time
         let limit = if sc.tags.iter().any(|t| t == "over-4gib") { 240 } else { 25 };
-        unsafe {
-            libc::alarm(limit);
-        }
+        arm_watchdog(limit);
         let ev = oracle::evaluate(prop, &sc);
-        unsafe {
-            libc::alarm(0);
-        }
+        disarm_watchdog();
         out.evaluations += 1;
         out.runs += ev.runs;
         out.sim_ns = out.sim_ns.saturating_add(ev.sim_ns);
@@ -352,8 +348,11 @@ pub fn check(prop: &str, tier: &str) -> i32 {
                 *merged.counters.entry("aborted_worker".into()).or_insert(0) += 1;
             }
         } else {
-            eprintln!("HARNESS-ERROR: worker death at index {} did not reproduce", idx);
-            return 2;
+            // the index passes on its own: the worker was lost to something outside the run (memory
+            // pressure, an operator's signal). Its remaining indices are not evaluated; recorded in the
+            // evidence, not a verdict on the property.
+            eprintln!("mdsim: worker death at index {} did not reproduce on a single-index re-run; counted as lost_worker", idx);
+            *merged.counters.entry("lost_worker".into()).or_insert(0) += 1;
         }
     }
 
@@ -460,9 +459,7 @@ pub fn replay_guarded(path: &str) -> i32 {
 }
 
 pub fn replay(path: &str) -> i32 {
-    unsafe {
-        libc::alarm(25);
-    }
+    arm_watchdog(25);
     let Ok(s) = std::fs::read_to_string(path) else {
         eprintln!("HARNESS-ERROR: cannot read {}", path);
         return 2;
@@ -480,9 +477,7 @@ pub fn replay(path: &str) -> i32 {
         Ok(s) => {
             let s: Scenario = s;
             if s.tags.iter().any(|t| t == "over-4gib") {
-                unsafe {
-                    libc::alarm(240);
-                }
+                arm_watchdog(240);
             }
             s
         }
@@ -509,11 +504,36 @@ pub fn replay(path: &str) -> i32 {
     }
 }
 
+/// Per-index watchdog: an endless CPU-only loop in the writer makes no simulated call, so only a
+/// timer can end it. The limit is on CPU time consumed (robust when the machine is busy: a slow but
+/// progressing run is not killed), with a generous wall-clock alarm behind it for a real block.
+pub fn arm_watchdog(cpu_seconds: u32) {
+    set_prof_timer(cpu_seconds as i64);
+    unsafe {
+        libc::alarm(cpu_seconds.saturating_mul(12));
+    }
+}
+
+pub fn disarm_watchdog() {
+    set_prof_timer(0);
+    unsafe {
+        libc::alarm(0);
+    }
+}
+
+/// setitimer(ITIMER_PROF): counts the CPU time this process consumes, SIGPROF (default action:
+/// terminate) when it runs out
+fn set_prof_timer(seconds: i64) {
+    // struct itimerval { it_interval: timeval, it_value: timeval }
+    let it: [i64; 4] = [0, 0, seconds, 0];
+    unsafe {
+        libc::syscall(libc::SYS_setitimer, 2i64, it.as_ptr(), std::ptr::null_mut::<i64>());
+    }
+}
+
 pub fn one(prop: &str, seed: u64, idx: u64) -> i32 {
     let sc = profiles::generate(prop, seed, idx);
-    unsafe {
-        libc::alarm(if sc.tags.iter().any(|t| t == "over-4gib") { 240 } else { 25 });
-    }
+    arm_watchdog(if sc.tags.iter().any(|t| t == "over-4gib") { 240 } else { 25 });
     if std::env::var("VERIF_VERBOSE").is_ok() {
         // debugging aid: the base run's call trace and outcome
         let res = crate::run::run(&sc, &crate::run::RunOpts { trace: true, ..Default::default() });
@@ -544,7 +564,18 @@ pub fn violations_brief(v: &[Violation]) -> String {
 pub fn selftest() -> i32 {
     use crate::scenario::CallKind as K;
     let mut r = crate::rng::Rng::new(7);
-    let b = crate::gen::build_world(&mut r, &crate::gen::WorldCfg::default());
+    let mut b = crate::gen::build_world(&mut r, &crate::gen::WorldCfg::default());
+    // a library whose build id is only reachable through its file (note in a section, section table
+    // not loaded): makes the writer open and map the file, so that those seams are exercised too
+    {
+        let spec = crate::elfgen::ElfSpec { build_id: Some(r.bytes(20)), note_in_phdr: false, soname: Some("libfileonly.so.2".into()), sections: true, text_pages: 1, text_seed: 77, sections_at_end: true, ..Default::default() };
+        let img = crate::elfgen::build(&spec);
+        let path = "/usr/lib/libfileonly.so.2.0";
+        let mem = img.file.clone();
+        crate::gen::elf_regions(path, crate::gen::LIB_BASE + 0x5000_0000, &img, 5151, &mem, &mut b.world.regions);
+        b.world.regions.sort_by_key(|g| g.start);
+        b.world.files.push(crate::scenario::FileSpec { path: crate::scenario::B::s(path), content: crate::scenario::B(img.file.clone()), mode: 0o100644 });
+    }
     let opts = crate::scenario::Opts { blamed: crate::gen::PID, ..Default::default() };
     let sc = crate::gen::simple_dump_scenario("selftest", 7, "selftest", b, opts);
     let a = crate::run::run(&sc, &crate::run::RunOpts::default());
